@@ -178,7 +178,10 @@ pub fn render(v: &Val, ctx: &mut Ctx) -> TokenStream {
                     let name = format!("__s_{}", leaf_name(&path, ctx));
                     let lf = leaf_of(&path, ctx);
                     ctx.leaves.insert(name.clone(), lf);
-                    return std::iter::once(TokenTree::Literal(Literal::string(&name))).collect();
+                    // was the raw-identifier prefix removed on the way?
+                    let unraw = v.any(&|x| matches!(x, Val::Opaque { what, deps } if what == ".unraw" || ((what == ".strip_prefix" || what == ".trim_start_matches") && deps.iter().any(|d| matches!(d, Val::Str(s) if s == "r#")))));
+                    let lit = if unraw { name.clone() } else { format!("raw:{name}") };
+                    return std::iter::once(TokenTree::Literal(Literal::string(&lit))).collect();
                 }
             }
             if what.starts_with("unwrapped") || what.starts_with("Ok.") { if let Some(d) = deps.first() { return render(d, ctx); } }
@@ -230,7 +233,8 @@ fn expand_seq(v: &Val, ctx: &mut Ctx) -> Vec<TokenStream> {
         }
         Val::Rep { coll, items } => {
             let mut out = Vec::new();
-            let n = if ctx.empty.iter().any(|e| e == coll) { 0 } else { ctx.sizes.get(coll).copied().unwrap_or(ctx.n) };
+            // the where-clause builder's collections are independent of the item's shape: keep them visible
+            let n = if ctx.empty.iter().any(|e| e == coll) { 0 } else { ctx.sizes.get(coll).copied().unwrap_or(if coll.contains("WhereClauseBuilder") { ctx.n.max(1) } else { ctx.n }) };
             for i in 1..=n {
                 ctx.idx.insert(coll.clone(), i);
                 for it in items { out.push(render(it, ctx)); }
